@@ -9,6 +9,7 @@
            number of allocation units, then fills the new segment TO ITS END with small live objects and collects, so
            that the next sweep walks over the last byte of the segment (a segment size that is not a multiple of
            the allocation unit leaves a tail that belongs to no chunk)
+         4 policy stream (see policy_stream below): the four coalescing cases of the sweep each decide a growth question
    The trace is written by the VERIF hooks (CHIBI_VERIF_TRACE, CHIBI_VERIF_SWEEPLOG). */
 #include <stdio.h>
 #include <stdlib.h>
@@ -18,6 +19,65 @@ static unsigned long long seed;
 static unsigned long rnd (unsigned long k) {
   seed = seed * 6364136223846793005ULL + 1442695040888963407ULL;
   return (unsigned long)((seed >> 33) % k);
+}
+
+static int has_free (sexp ctx, size_t n) {
+  sexp_heap h; sexp_free_list q;
+  for (h = sexp_context_heap(ctx); h; h = h->next) for (q = h->free_list->next; q; q = q->next) if (q->size >= n) return 1;
+  return 0;
+}
+
+/* mode 4, policy stream: the heap is FULL (12 adjacent 256-byte vectors a[0..11], everything else pairs, alternately
+   in the lists E and O); in each round dropping O frees more than 1/4 of the heap in 32-byte holes (so the ratio rule
+   does not ask for growth) and the ONLY chunk that fits the request is the one the sweep builds by one of its four
+   coalescing cases: new chunk / merge with the free chunk on the right / on the left / on both sides.  The request
+   must be served from that chunk: max_freed has to report the MERGED size.  A growth here is flagged by the policy
+   oracle of props/C10.py (growth:not-required-by-policy). */
+static int policy_stream (sexp ctx) {
+  unsigned long i, k, off[12]; int ok = 1, round;
+  sexp x;
+  sexp_gc_var4(a, E, O, fill);
+  sexp_gc_preserve4(ctx, a, E, O, fill);
+  E = O = fill = SEXP_NULL;
+  a = sexp_make_vector(ctx, sexp_make_fixnum(12), SEXP_FALSE);
+  sexp_gc(ctx, NULL);
+  for (k = 0; k < 100000 && has_free(ctx, 4096); k++) {       /* the holes of the boot area and the start of the big chunk */
+    x = sexp_make_vector(ctx, sexp_make_fixnum(30), SEXP_VOID);
+    fill = sexp_cons(ctx, x, fill);
+    if (k >= 40) break;
+  }
+  for (i = 0; i < 12; i++) {
+    sexp_heap h = sexp_context_heap(ctx);
+    x = sexp_make_vector(ctx, sexp_make_fixnum(30), SEXP_VOID);
+    sexp_vector_set(a, sexp_make_fixnum(i), x);
+    off[i] = (unsigned long)((char*)x - (char*)h->data);
+    if (i > 0 && off[i] != off[i-1] + 256) ok = 0;
+  }
+  printf("LAYOUT %s\n", ok ? "ok" : "failed");
+  for (k = 0; k < 4000000 && has_free(ctx, 32); k++) {        /* fill everything else with pairs, alternately E / O */
+    if (k & 1) O = sexp_cons(ctx, SEXP_FALSE, O); else E = sexp_cons(ctx, SEXP_FALSE, E);
+  }
+  for (round = 0; round < 4; round++) {
+    long slots = 30;
+    switch (round) {
+    case 0:   /* merge p with r: the chunk on the right was freed by an earlier collection */
+      sexp_vector_set(a, sexp_make_fixnum(1), SEXP_FALSE); sexp_gc(ctx, NULL);
+      sexp_vector_set(a, SEXP_ZERO, SEXP_FALSE); slots = 62; break;
+    case 1:   /* merge q with p: two neighbours die in the same collection */
+      sexp_vector_set(a, sexp_make_fixnum(3), SEXP_FALSE); sexp_vector_set(a, sexp_make_fixnum(4), SEXP_FALSE); slots = 62; break;
+    case 2:   /* merge q with p and r */
+      sexp_vector_set(a, sexp_make_fixnum(6), SEXP_FALSE); sexp_vector_set(a, sexp_make_fixnum(8), SEXP_FALSE); sexp_gc(ctx, NULL);
+      sexp_vector_set(a, sexp_make_fixnum(7), SEXP_FALSE); slots = 94; break;
+    default:  /* a new chunk between two live objects */
+      sexp_vector_set(a, sexp_make_fixnum(10), SEXP_FALSE); slots = 30; break;
+    }
+    O = SEXP_NULL;                                             /* > 1/4 of the heap dies in 32-byte holes */
+    x = sexp_make_vector(ctx, sexp_make_fixnum(slots), SEXP_VOID);   /* slow path: collection, then the merged chunk must serve it */
+    fill = sexp_cons(ctx, x, fill);
+    for (k = 0; k < 4000000 && has_free(ctx, 32); k++) O = sexp_cons(ctx, SEXP_FALSE, O);     /* refill the holes */
+  }
+  sexp_gc_release4(ctx);
+  return ok;
 }
 
 static sexp_heap last_heap (sexp ctx) { sexp_heap h = sexp_context_heap(ctx); while (h->next) h = h->next; return h; }
@@ -78,6 +138,7 @@ int main (int argc, char **argv) {
   root = sexp_make_vector(ctx, sexp_make_fixnum(slots), SEXP_FALSE);
   if (sexp_exceptionp(root)) { fprintf(stderr, "no root table\n"); return 2; }
   if (mode == 3) { growth_stream(ctx, root, n); n = 0; }
+  if (mode == 4) { policy_stream(ctx); n = 0; }
   for (i = 0; i < n; i++) {
     switch (rnd(10)) {
     case 0: tmp = sexp_cons(ctx, SEXP_NULL, SEXP_NULL); break;
